@@ -57,8 +57,16 @@ def artefacts(spec, with_tags=True) -> dict[str, str]:
     from pvf.ptbuild import build_pt
     out = {}
     try:
-        prog = build_pt(spec, with_tags=with_tags)
-        g = pt.transform.deduplicate(prog.dict_of_named_arrays())
+        if "sym" in spec:
+            # a program with symbolic shapes (pvf/props/c16.py)
+            from pvf.props import c16
+            env, _ = c16.build_sym(spec["sym"])
+            g = pt.transform.deduplicate(pt.make_dict_of_named_arrays(
+                {f"out{k}": env[i]
+                 for k, i in enumerate(spec["sym"]["outputs"])}))
+        else:
+            prog = build_pt(spec, with_tags=with_tags)
+            g = pt.transform.deduplicate(prog.dict_of_named_arrays())
     except Exception as e:  # noqa: BLE001
         return {"build": norm_exc(e)}
     try:
@@ -119,7 +127,14 @@ def main() -> None:
     if history == "churn":
         churn([c["spec"] for c in cases if "spec" in c])
     res = []
-    for c in cases:
+    order = list(range(len(cases)))
+    if history == "reverse":
+        # the same programs in the opposite order: whatever one code
+        # generation leaves behind in the process reaches other programs
+        order.reverse()
+    slots = [None] * len(cases)
+    for idx in order:
+        c = cases[idx]
         if "spec" in c:
             a = artefacts(c["spec"])
             b = artefacts(c["spec"])
@@ -128,7 +143,8 @@ def main() -> None:
             a = dist_artefacts(c)
             b = dist_artefacts(c)
             twice = [k for k in a if a[k] != b.get(k)]
-        res.append({"artefacts": a, "twice_differs": twice})
+        slots[idx] = {"artefacts": a, "twice_differs": twice}
+    res = slots
     with open(outp, "w") as f:
         json.dump(res, f)
     print("PVF-CHILD-OK", len(res),
